@@ -1,2 +1,165 @@
+"""Contracts on bldfm.utils: compute_wind_fields (C08), point_measurement (C02),
+get_source_area and the source_area_* base functions (C20)."""
+import z3
+
+from pyvc import sym, arrays, harness, loops, npshim, transc
+from pyvc.sym import Num, Cx, SBool, num, ite
+from pyvc.arrays import Arr, Axis
+
+MOD = "bldfm.utils"
+
+
+def namespace(ctx):
+    ns = harness.namespace(MOD)
+    ns["np"] = npshim.NP()
+    return ns
+
+
+def generate_wind(ctx):
+    P = {"C08"}
+    if not ctx.wants(P):
+        return
+    ns = namespace(ctx)
+    f = harness.define(ctx, ns, MOD, "compute_wind_fields")
+
+    def thunk(run):
+        run.scope = "utils.compute_wind_fields"
+        s, th = sym.fresh_real("speed"), sym.fresh_real("wind_dir")
+        u, v = f(s, th)
+        pi = transc.PI()
+        rad = th * pi / 180
+        # meteorological convention (from the statement): direction clockwise from north the wind
+        # blows FROM; unit vector toward the source (sin, cos) in (east, north); wind = -speed * that
+        loops.oblige_equal(run, "u", u, -s * transc.sin(rad), kind="post", props=P)
+        loops.oblige_equal(run, "v", v, -s * transc.cos(rad), kind="post", props=P)
+        # speed preserved: Pythagoras instance sin^2 + cos^2 = 1 at rad
+        S_, C_ = sym.fresh_real("sinv"), sym.fresh_real("cosv")
+        run.oblige("lemma.speed-preserved", (S_ * S_ + C_ * C_ == 1).implies((-s * S_) * (-s * S_) + (-s * C_) * (-s * C_) == s * s),
+                   kind="lemma", cls="lemma", props=P)
+        # cardinal directions from the exact values of sin/cos at multiples of pi/2 (A8 instances)
+        for deg, (sv, cv), toward in ((0, (0, 1), "south"), (90, (1, 0), "west"), (180, (0, -1), "north"), (270, (-1, 0), "east")):
+            uu, vv = -s * sv, -s * cv
+            want = {"south": (Num(0), -s), "west": (-s, Num(0)), "north": (Num(0), s), "east": (s, Num(0))}[toward]
+            run.oblige("lemma.cardinal-%d-blows-toward-%s" % (deg, toward), loops.scalar_eq(uu, want[0]) & loops.scalar_eq(vv, want[1]),
+                       kind="lemma", cls="lemma", props=P)
+        # array arguments: the scalar contract holds elementwise
+        n = sym.fresh_int("n")
+        run.assume(n >= 1)
+        sa, ta = arrays.fresh_array("speeds", [n], "float"), arrays.fresh_array("dirs", [n], "float")
+        ua, va = f(sa, ta)
+        loops.oblige_equal(run, "elementwise.u", ua, Arr([Axis(n)], lambda k: -sa.at(k) * transc.sin(ta.at(k) * pi / 180), "float"), kind="post", props=P)
+        loops.oblige_equal(run, "elementwise.v", va, Arr([Axis(n)], lambda k: -sa.at(k) * transc.cos(ta.at(k) * pi / 180), "float"), kind="post", props=P)
+    ctx.explore("utils.compute_wind_fields", thunk, P)
+
+
+def generate_point(ctx):
+    P = {"C02"}
+    if not ctx.wants(P):
+        return
+    ns = namespace(ctx)
+    f = harness.define(ctx, ns, MOD, "point_measurement")
+
+    def thunk(run):
+        run.scope = "utils.point_measurement"
+        ny, nx = sym.fresh_int("ny"), sym.fresh_int("nx")
+        run.assume((ny >= 1) & (nx >= 1))
+        a, b = arrays.fresh_array("f", [ny, nx], "float"), arrays.fresh_array("g", [ny, nx], "float")
+        r = f(a, b)
+        sums = run.__dict__.get("sums", [])
+        run.oblige("returns-one-total", SBool(len(sums) == 1 and r is sums[0][1]), kind="post", props=P)
+        if len(sums) == 1:
+            loops.oblige_equal(run, "total-of-the-pointwise-product", sums[0][0],
+                               Arr(a.axes, lambda j, i: a.at(j, i) * b.at(j, i), "float"), kind="post", props=P)
+    ctx.explore("utils.point_measurement", thunk, P)
+
+
+def generate_source_area(ctx):
+    P = {"C20"}
+    if not ctx.wants(P):
+        return
+    ns = namespace(ctx)
+    f = harness.define(ctx, ns, MOD, "get_source_area")
+
+    for shape in ("2d", "1d", "1d-integer-g"):
+        def thunk(run, shape=shape):
+            run.scope = "utils.get_source_area[%s]" % shape
+            if shape == "2d":
+                ny, nx = sym.fresh_int("ny"), sym.fresh_int("nx")
+                run.assume((ny >= 1) & (nx >= 1))
+                F, G = arrays.fresh_array("f", [ny, nx], "float"), arrays.fresh_array("g", [ny, nx], "float")
+            else:
+                n1 = sym.fresh_int("n")
+                run.assume(n1 >= 1)
+                # "any base field g": an integer-typed g must not truncate the sums
+                F, G = arrays.fresh_array("f", [n1], "float"), arrays.fresh_array("g", [n1], "int" if "integer" in shape else "float")
+            out = harness.call(run, f, F, G).value
+            ff, gf = F.ravel(), G.ravel()
+            n = gf.axes[0].size
+            run.assume(n >= 1)
+            perms = run.__dict__.get("perms", [])
+            ghosts = run.__dict__.get("prefix_ghosts", [])
+            run.oblige("one-sort-one-cumulative-sum", SBool(len(perms) == 1 and len(ghosts) == 1), kind="post", props=P)
+            if len(perms) != 1 or len(ghosts) != 1:
+                return
+            pi = perms[0]
+            # shape
+            run.oblige("shape-of-g", SBool(out.ndim == G.ndim) & sym.And(*[a.size == b.size for a, b in zip(out.axes, G.axes)]),
+                       kind="post", props=P)
+            of = out.ravel()
+            # rank form: ord[r] = pi[n-1-r] (descending g); out.flat[ord[r]] = sum_{t<r} f.flat[ord[t]]
+            ordr = lambda r: pi.at(n - 1 - num(r))  # noqa: E731
+            gh = ghosts[0]
+            # the array that is cumulated is f in descending-g order
+            loops.oblige_equal(run, "cumulated-array-is-f-in-descending-g-order", gh["array"],
+                               Arr([Axis(n)], lambda t: ff.at(ordr(t)), "float"), kind="post", props=P)
+            # sort key is g itself (ascending argsort of g.flat, then reversed)
+            r = sym.fresh_int("r")
+            rng = [(r >= 0) & (r < n)]
+            run.oblige("descending-in-g", ((r + 1 < n)).implies(num(gf.at(ordr(r))) >= num(gf.at(ordr(r + 1)))), kind="post", props=P,
+                       assuming=rng + [pi.sorted_fact(n - 2 - r)])
+            run.oblige("rank-form: value at the r-th highest cell is the sum of f over the r cells ranked above it (exclusive)",
+                       loops.scalar_eq(of.at(ordr(r)), gh["prefix"](r)), kind="post", props=P, view="value", assuming=rng)
+            # ---- consequences (lemmas over the rank form)
+            fr = lambda t: num(ff.at(ordr(t)))  # noqa: E731
+            pre = gh["prefix"]
+            run.oblige("lemma.prefix-monotone (f >= 0): step", ((fr(r) >= 0) & (pre(r + 1) == pre(r) + fr(r))).implies(pre(r + 1) >= pre(r)),
+                       kind="lemma", cls="lemma", props=P, assuming=rng)
+            run.oblige("lemma.prefix-nonnegative: induction step", ((pre(r) >= 0) & (fr(r) >= 0) & (pre(r + 1) == pre(r) + fr(r))).implies(pre(r + 1) >= 0),
+                       kind="lemma", cls="lemma", props=P, assuming=rng)
+            run.oblige("lemma.prefix-nonnegative: base", pre(Num(0)) == 0, kind="lemma", cls="lemma", props=P)
+            # rank vs set: a strictly larger g is ranked strictly earlier (contrapositive of sortedness, adjacent instance)
+            run.oblige("lemma.rank-vs-set (adjacent): later rank => g not larger",
+                       (r + 1 < n).implies(sym.Not(num(gf.at(ordr(r + 1))) > num(gf.at(ordr(r))))), kind="lemma", cls="lemma", props=P,
+                       assuming=rng + [pi.sorted_fact(n - 2 - r)])
+            run.cover("path")
+        ctx.explore("utils.get_source_area[%s]" % shape, thunk, P)
+
+    # ---- base functions: formulas and shapes
+    def t_base(run):
+        run.scope = "utils.source_area_*"
+        ny, nx = sym.fresh_int("ny"), sym.fresh_int("nx")
+        run.assume((ny >= 1) & (nx >= 1))
+        X, Y = arrays.fresh_array("X", [ny, nx], "float"), arrays.fresh_array("Y", [ny, nx], "float")
+        xm, ym, u, v = [sym.fresh_real(n) for n in ("xm", "ym", "u", "v")]
+        fns = {n: harness.define(ctx, ns, MOD, n) for n in ("source_area_circular", "source_area_upwind", "source_area_crosswind", "source_area_sector")}
+        mk = lambda fn: Arr(X.axes, fn, "float")  # noqa: E731
+        dx = lambda j, i: X.at(j, i) - xm  # noqa: E731
+        dy = lambda j, i: Y.at(j, i) - ym  # noqa: E731
+        sp = transc.sqrt(u * u + v * v)
+        loops.oblige_equal(run, "circular: -r^2", fns["source_area_circular"](X, Y, (xm, ym)), mk(lambda j, i: -(dx(j, i) ** 2 + dy(j, i) ** 2)), kind="post", props=P)
+        loops.oblige_equal(run, "upwind: u_hat . r", fns["source_area_upwind"](X, Y, (xm, ym), (u, v)),
+                           mk(lambda j, i: u / sp * dx(j, i) + v / sp * dy(j, i)), kind="post", props=P)
+        loops.oblige_equal(run, "crosswind: -(n_hat . r)^2", fns["source_area_crosswind"](X, Y, (xm, ym), (u, v)),
+                           mk(lambda j, i: -((-(v / sp) * dx(j, i) + u / sp * dy(j, i)) ** 2)), kind="post", props=P)
+
+        def sector(j, i):
+            th = transc.arctan2(dy(j, i), dx(j, i)) - transc.arctan2(-v, -u)
+            return -abs(transc.arctan2(transc.sin(th), transc.cos(th)))
+        loops.oblige_equal(run, "sector: -|wrap(theta - theta_upwind)|", fns["source_area_sector"](X, Y, (xm, ym), (u, v)), mk(sector), kind="post", props=P)
+    ctx.explore("utils.source_area_*", t_base, P)
+
+
 def generate(ctx):
-    pass
+    generate_wind(ctx)
+    generate_point(ctx)
+    generate_source_area(ctx)
